@@ -104,10 +104,10 @@ structure Sys (α : Type) where
   m : Nat
   n : Nat
   /-- rows of `R_free`, `R_elim`, `R_free_v`, `R_elim_v` -/
-  free : List Nat
-  elim : List Nat
-  freeV : List Nat
-  elimV : List Nat
+  rfree : List Nat
+  relim : List Nat
+  rfreeV : List Nat
+  relimV : List Nat
   /-- `self.values` (in the order of `R_elim`) -/
   values : List α
   /-- `self.A` (dense rows), `self.b` -/
@@ -115,64 +115,75 @@ structure Sys (α : Type) where
   b : List α
 
 /-- `restrict(u) = R_free.dot(u)` -/
-def Sys.restrict (S : Sys α) (u : List α) : List α := gather S.free u
+def Sys.restrict (S : Sys α) (u : List α) : List α := gather S.rfree u
 /-- `restrict_rhs(f) = R_free_v.dot(f)` -/
-def Sys.restrictRhs (S : Sys α) (f : List α) : List α := gather S.freeV f
+def Sys.restrictRhs (S : Sys α) (f : List α) : List α := gather S.rfreeV f
 /-- `restrict_matrix(B) = R_free_v.dot(B).dot(R_free.T)` -/
 def Sys.restrictMatrix (S : Sys α) (B : List (List α)) : List (List α) :=
-  selectMatrix S.freeV S.free B
+  selectMatrix S.rfreeV S.rfree B
 /-- `extend(u) = R_free.T.dot(u)` -/
-def Sys.extend (S : Sys α) (u : List α) : List α := scatter S.n S.free u
+def Sys.extend (S : Sys α) (u : List α) : List α := scatter S.n S.rfree u
 /-- `complete(u) = extend(u) + R_elim.T.dot(values)` -/
 def Sys.complete (S : Sys α) (u : List α) : List α :=
-  vadd (S.extend u) (scatter S.n S.elim S.values)
+  vadd (S.extend u) (scatter S.n S.relim S.values)
+
+/-- `if np.isscalar(values): values = np.broadcast_to(values, indices.shape[0])`
+`else: values = np.asarray(values)[np.argsort(indices, kind='stable')]`.
+A scalar needs `indices.shape` (AttributeError for a list/tuple); fancy indexing with the
+permutation raises IndexError when there are fewer values than indices. -/
+def valuesOf (idxIsArray : Bool) (idx : List Nat) (vals : ScalarOr α) : Except Err (List α) :=
+  match vals with
+  | .scalar v => if idxIsArray then .ok (List.replicate idx.length v) else .error .attr
+  | .array vs => if vs.length < idx.length then .error .index else .ok (sortedVals idx vs)
+
+/-- rows of `(R_free_v, R_elim_v)` and the column count of `R_free_v`:
+`maskv[sorted(elim_rows)] = False` (a mask: order and repetitions are irrelevant) when
+`elim_rows` is given, otherwise the dof matrices are reused. -/
+def rowSets (m n : Nat) (idx : List Nat) (elimRows : Option (List Nat)) :
+    Except Err (List Nat × List Nat × Nat) :=
+  match elimRows with
+  | some er =>
+      if er.any (fun i => decide (m ≤ i)) then .error .index
+      else .ok (free m er, elim m er, m)
+  | none => .ok (free n idx, elim n idx, n)
 
 /-- `RestrictedLinearSystem.__init__(A, b, (indices, values), elim_rows)` for an `m × n`
-matrix `A`.  `idxIsArray` says whether `indices` is an ndarray (a scalar `values` needs
-`indices.shape`).  Exceptions in the order in which the Python statements raise them. -/
-def Sys.mk (m n : Nat) (A : List (List α)) (b : ScalarOr α) (idxIsArray : Bool)
-    (idx : List Nat) (vals : ScalarOr α) (elimRows : Option (List Nat)) : Except Err (Sys α) := do
+matrix `A`.  `idxIsArray` says whether `indices` is an ndarray.  Exceptions in the order in
+which the Python statements raise them. -/
+def Sys.build (m n : Nat) (A : List (List α)) (b : ScalarOr α) (idxIsArray : Bool)
+    (idx : List Nat) (vals : ScalarOr α) (elimRows : Option (List Nat)) : Except Err (Sys α) :=
   -- if np.isscalar(b): b = np.broadcast_to(b, A.shape[0])
   let b := match b with
     | .scalar v => List.replicate m v
     | .array vs => vs
-  -- if np.isscalar(values): values = np.broadcast_to(values, indices.shape[0])
-  -- else: values = np.asarray(values)[np.argsort(indices, kind='stable')]
-  let values ← match vals with
-    | .scalar v => if idxIsArray then pure (List.replicate idx.length v) else throw Err.attr
-    | .array vs => if vs.length < idx.length then throw Err.index else pure (sortedVals idx vs)
+  match valuesOf idxIsArray idx vals with
+  | .error e => .error e
+  | .ok values =>
   -- mask = np.ones(A.shape[1]); mask[list(indices)] = False
-  if idx.any (fun i => decide (n ≤ i)) then throw Err.index
-  let fr := free n idx
-  let el := elim n idx
-  -- elim_rows: maskv[sorted(elim_rows)] = False  (a mask: order and repetitions are irrelevant)
-  let (frv, elv, mv) ← match elimRows with
-    | some er =>
-        if er.any (fun i => decide (m ≤ i)) then throw Err.index
-        else pure (free m er, elim m er, m)
-    | none => pure (fr, el, n)
+  if idx.any (fun i => decide (n ≤ i)) then .error .index else
+  match rowSets m n idx elimRows with
+  | .error e => .error e
+  | .ok (frv, elv, mv) =>
   -- self.A = R_free_v.dot(A).dot(R_free.T): R_free_v has `mv` columns, A has `m` rows
-  if mv ≠ m then throw Err.value
-  let Ar := selectMatrix frv fr A
-  -- R_elim.T.dot(values): R_elim has |el| rows
-  if el.length ≠ values.length then throw Err.value
-  let g := scatter n el values
-  -- b - A.dot(g)
-  if b.length ≠ m then throw Err.value
-  let rhs := vsub b (matVec n A g)
-  pure { m := m, n := n, free := fr, elim := el, freeV := frv, elimV := elv,
-         values := values, A := Ar, b := gather frv rhs }
+  if mv ≠ m then .error .value else
+  -- R_elim.T.dot(values): R_elim has |elim| rows
+  if (elim n idx).length ≠ values.length then .error .value else
+  -- b - A.dot(R_elim.T.dot(values))
+  if b.length ≠ m then .error .value else
+  .ok { m := m, n := n, rfree := free n idx, relim := elim n idx, rfreeV := frv, relimV := elv,
+        values := values, A := selectMatrix frv (free n idx) A,
+        b := gather frv (vsub b (matVec n A (scatter n (elim n idx) values))) }
 
 /-- method calls with scipy's shape check (`dimension mismatch` is a `ValueError`) -/
 def Sys.restrict? (S : Sys α) (u : List α) : Except Err (List α) :=
   if u.length ≠ S.n then .error .value else .ok (S.restrict u)
 def Sys.restrictRhs? (S : Sys α) (f : List α) : Except Err (List α) :=
-  if f.length ≠ (if S.freeV.length + S.elimV.length = S.m then S.m else S.m) then .error .value
+  if f.length ≠ S.m then .error .value
   else .ok (S.restrictRhs f)
 def Sys.extend? (S : Sys α) (u : List α) : Except Err (List α) :=
-  if u.length ≠ S.free.length then .error .value else .ok (S.extend u)
+  if u.length ≠ S.rfree.length then .error .value else .ok (S.extend u)
 def Sys.complete? (S : Sys α) (u : List α) : Except Err (List α) :=
-  if u.length ≠ S.free.length then .error .value else .ok (S.complete u)
+  if u.length ≠ S.rfree.length then .error .value else .ok (S.complete u)
 
 end algebra
 
@@ -248,6 +259,12 @@ def sliceNoRavel (ax : Nat) (idx : Int) (shape : List Nat) (flip : Option (List 
     .ok ((sliceMulti ax 0 shape flip).map (fun I => (I.map (fun (c : Nat) => (c : Int))).set ax i))
   else .error .index
 
+/-- `boundary_dofs(kvs, bdspec, ravel=False, flip)` -/
+def boundaryDofsNoRavel (N : List Nat) (bd : BdSpec) (flip : Option (List Bool)) :
+    Except Err (List (List Int)) := do
+  let (ax, side) ← parseBdspec bd N.length
+  sliceNoRavel ax (if side = 0 then 0 else -1) N flip
+
 /-- component `j` of the raveled coefficient array: `dircoeffs[..., j].ravel()` -/
 def component {β : Type} [Inhabited β] (numcomp j : Nat) (flat : List β) : List β :=
   (List.range (flat.length / numcomp)).map (fun k => flat.getD (k * numcomp + j) default)
@@ -272,13 +289,19 @@ def dirichletBc {β : Type} (N : List Nat) (bd : BdSpec) (numcomp : Option Nat)
 
 /-- the `("all", dir_func)` shorthand of `compute_dirichlet_bcs` -/
 def allBdspecs (dim : Nat) : List BdSpec :=
-  (List.range dim).flatMap (fun ax => [BdSpec.pair ax 0, BdSpec.pair ax 1])
+  (List.range dim).flatMap (fun ax => [BdSpec.pair (Int.ofNat ax) 0, BdSpec.pair (Int.ofNat ax) 1])
 
 /-- `compute_dirichlet_bcs(kvs, geo, bdconds)` -/
 def dirichletBcs {β : Type} (N : List Nat)
     (conds : List (BdSpec × Option Nat × List (Option β))) : Except Err (List Nat × List (Option β)) := do
   let bcs ← conds.mapM (fun (bd, nc, co) => dirichletBc N bd nc co)
   combineBcs bcs
+
+/-- `compute_dirichlet_bcs(kvs, geo, ("all", dir_func))`: one coefficient array per face in
+the order `[(ax, bd) for ax in range(dim) for bd in (0,1)]` -/
+def dirichletBcsAll {β : Type} (N : List Nat) (data : List (Option Nat × List (Option β))) :
+    Except Err (List Nat × List (Option β)) :=
+  dirichletBcs N ((allBdspecs N.length).zip data)
 
 /-- `Multipatch.compute_dirichlet_bcs(bdconds)`: `p2g[p] = patch_to_global_idx(p)`;
 `bcs.append((idx[bc[0]], bc[1]))`; `combine_bcs`. -/
